@@ -13,13 +13,53 @@ import (
 
 const c18Bad = "bad\xffmessage"
 
+// invalid messages with runs of 1..4 offending bytes, a truncated multi-byte rune at the end,
+// and valid multi-byte runes around the damage
+func c18BadShape(k int) string {
+	switch k % 6 {
+	case 1:
+		return "\xff\xff"
+	case 2:
+		return "\xf0\x9f\x98" // an emoji cut after 3 of 4 bytes
+	case 3:
+		return "a\xff\xfe\xfdb\xc3"
+	case 4:
+		return "\u00e9\xfc\xfd\xfe\xff\u00e9"
+	case 5:
+		return "\xf0\x9f\x98x\xf0\x9f\x98"
+	}
+	return c18Bad
+}
+
+// c18ValidPart: the valid runes of s in order, without U+FFFD (what a faithful repair preserves)
+func c18ValidPart(s string) string {
+	var out []byte
+	for i := 0; i < len(s); {
+		r, sz := utf8.DecodeRuneInString(s[i:])
+		if r != utf8.RuneError {
+			out = append(out, s[i:i+sz]...)
+		}
+		i += sz
+	}
+	return string(out)
+}
+
+// c18Faithful: after is valid, keeps every valid rune of before in order, and equals before when
+// before was valid
+func c18Faithful(before, after string) bool {
+	if utf8.ValidString(before) {
+		return after == before
+	}
+	return utf8.ValidString(after) && c18ValidPart(after) == c18ValidPart(before) && after != c18ValidPart(before)
+}
+
 // c18Chain builds a failure chain of n links; link badPos (if in range) carries invalid UTF-8.
 func c18Chain(n, badPos int) *c18Failure {
 	var head *c18Failure
 	for k := n - 1; k >= 0; k-- {
 		f := &c18Failure{Message: "ok", Cause: head}
 		if k == badPos {
-			f.Message = c18Bad
+			f.Message = c18BadShape(n + k)
 		}
 		head = f
 	}
@@ -98,15 +138,17 @@ func c18Run(i, n, bad int) {
 // the chain kernel alone: every validity pattern of every chain length 0..12
 func verifHarness_C18_chain() {
 	n := verifChoose("length", 13)
+	shape := verifChoose("bad-shape", 6)
 	var head *c18Failure
 	var links []*c18Failure
+	var before []string
 	anyBad, anyBadWithinDepth := false, false
 	for k := 0; k < n; k++ {
 		links = append(links, &c18Failure{Message: "ok"})
 	}
 	for k := n - 1; k >= 0; k-- {
 		if verifNondetBool("invalid") { // forks: all 2^n patterns
-			links[k].Message = c18Bad
+			links[k].Message = c18BadShape(shape + k)
 			anyBad = true
 			if k < maxFailureDepth {
 				anyBadWithinDepth = true
@@ -115,12 +157,16 @@ func verifHarness_C18_chain() {
 		links[k].Cause = head
 		head = links[k]
 	}
+	for _, f := range links {
+		before = append(before, f.Message)
+	}
 	changed, err := repairInvalidUTF8InFailure(head)
 	verifAssert((err != nil) == (n > maxFailureDepth), "error-iff-chain-longer-than-supported-depth")
 	verifAssert(changed == anyBadWithinDepth, "changed-iff-an-invalid-message-within-depth")
 	for k, f := range links {
 		if k < maxFailureDepth {
 			verifAssert(utf8.ValidString(f.Message), "every-link-within-depth-valid-afterwards")
+			verifAssert(c18Faithful(before[k], f.Message), "only-the-offending-bytes-replaced")
 		}
 		if k+1 < n {
 			verifAssert(f.Cause == links[k+1], "chain-links-untouched")
